@@ -238,7 +238,7 @@ func stateMultiLineAnnotationEnd(s *Scanner, c byte) state {
 }
 
 func stateMultiLineAnnotationText(s *Scanner, c byte) state {
-	if c == '*' && s.data.Byte(s.index) == '/' {
+	if c == '*' && s.index < s.dataSize && s.data.Byte(s.index) == '/' {
 		s.found(lexeme.MultiLineAnnotationTextEnd)
 		s.step = stateMultiLineAnnotationEnd
 	}
